@@ -58,7 +58,7 @@ def floors(tier):
             # classes count cases (networks) ...
             "classes": {"net:jitter": 300 * m, "net:shear": 100 * m, "net:axis": 100 * m, "net:nearaxis": 100 * m,
                         "index:none": 150 * m, "index:square": 150 * m, "index:nonsquare": 150 * m,
-                        "match:collection": 200 * m, "match:rematch": 200 * m, "match:single-fix": 100 * m,
+                        "match:collection": 200 * m, "match:rematch": 200 * m, "rematch_after_the_fixes_were_moved_in_place": 100 * m, "match:single-fix": 100 * m,
                         "radius:1": 200 * m, "radius:5": 200 * m, "radius:15": 200 * m, "radius:50": 200 * m,
                         "radius:200": 200 * m,
                         "edge:horizontal-leg": 100 * m, "edge:vertical-leg": 100 * m, "edge:midvertex": 300 * m,
@@ -283,6 +283,12 @@ def cases(chunk):
                 mt["tracks"].append(_gen_track(rng, net))
             if mode == "rematch":
                 mt["radius2"] = rng.choice(RADII)
+                if rng.random() < 0.5:
+                    # the caller moves the fixes of the SAME track object in place between the two requests (a datum
+                    # shift, a correction) and asks again, half of the time with the very same search radius
+                    mt["moved"] = rng.choice([[7.5, -4.0], [40.0, 0.0], [-3.0, 12.5], [0.0, 25.0]])
+                    if rng.random() < 0.5:
+                        mt["radius2"] = mt["radius"]
             matchings.append(mt)
         yield {"net": net, "matchings": matchings}
 
@@ -400,8 +406,18 @@ def _run_matching(case, network, mt, mi, ctx, cls, stats):
     rounds = [radius]
     if mt["mode"] == "rematch":
         rounds.append(mt["radius2"])
+    specs = list(mt["tracks"])
     for rnd, rad in enumerate(rounds):
         ctx.count("matchings")
+        if rnd == 1 and mt.get("moved"):
+            dx, dy = mt["moved"]
+            for t in tracks:
+                for o in t:
+                    o.position.setX(o.position.getX() + dx)
+                    o.position.setY(o.position.getY() + dy)
+            specs = [dict(sp, fixes=[[f[0] + dx, f[1] + dy] + list(f[2:]) for f in sp["fixes"]]) for sp in specs]
+            snaps = [_snapshot(t) for t in tracks]
+            cls.add("rematch_after_the_fixes_were_moved_in_place")
         arg = tracks[0] if mt["mode"] != "collection" else TrackCollection(tracks)
         verbose = (mi + rnd + len(tracks[0])) % 4 == 1          # the documented verbose option (progress bars)
         if verbose:
@@ -415,7 +431,7 @@ def _run_matching(case, network, mt, mi, ctx, cls, stats):
             w = dict(base)
             w.update({"what": "mapOnNetwork raised " + r.brief(), "raised": r})
             return w
-        for ti, (trk, spec, snap) in enumerate(zip(tracks, mt["tracks"], snaps)):
+        for ti, (trk, spec, snap) in enumerate(zip(tracks, specs, snaps)):
             ctx.monitor("track.conserved")
             now = M.call(_snapshot, trk)
             if M.is_raised(now) or now != snap:
@@ -591,8 +607,10 @@ def classify(case, witness):
         for i in range(len(p) - 1):
             if p[i][0] == p[i + 1][0] and p[i][1] != p[i + 1][1]:
                 xs.add(p[i][0])
+    # second round of a re-matching whose fixes the caller moved in place: the abscissas are the moved ones
+    dx = mt["moved"][0] if mt.get("moved") and witness.get("round") == 1 and k < len(case["matchings"]) else 0.0
     for t in mt["tracks"]:
         for f in t["fixes"]:
-            if f[0] in xs:
+            if f[0] + dx in xs:
                 return KF_VERTICAL
     return None
